@@ -23,8 +23,11 @@ RULE = (
     "chord as last group, or an S/E line inside a tick group); distinct = distinct section text."
 )
 ASSUMPTIONS = [
-    "open is never combined with lane lines and the open line is first in its tick group (documented "
-    "undefined behaviour otherwise); one line per (tick, lane); N lines sorted by tick (Moonscraper)",
+    "one line per (tick, lane); N lines sorted by tick (Moonscraper); a lone open line is first in its tick "
+    "group. 'Open chords' (an N 7 line on a tick that also has lane lines, as newer editors write them) are "
+    "generated in the random part only and judged by the statement's own rule -- the active lanes are exactly "
+    "the lanes the tick's lines name; their sustain is documented as undefined and is not looked at (C03 "
+    "never generates them)",
     "a forced flag is never put on the first note (documented ValueError)",
 ]
 
@@ -128,6 +131,9 @@ def _sections(draw, max_ticks):
         # lengths vary too (they must not influence grouping or lanes)
         ln_st = st.sampled_from([0, 0, 0, 1, 5, 1000])
         glines = [[tick, "N", OPEN, draw(ln_st)]] if mask == 0 else [[tick, "N", i, draw(ln_st)] for i in lanes]
+        if mask != 0 and draw(st.integers(0, 9)) == 0:
+            # an "open chord": the open-note line next to lane lines (anywhere among them)
+            glines.insert(draw(st.integers(0, len(glines))), [tick, "N", OPEN, draw(ln_st)])
         fl = draw(st.integers(0, 11))
         flags = []
         if fl in (8, 10) and g > 0:
